@@ -9,7 +9,9 @@ package absnfs
 //@ specdef rmMax(rm *RecordMarkingReader) mathint = ite(rm.MaxRecordSize <= 0, 1048576, rm.MaxRecordSize)
 
 //@ func RecordMarkingReader.ReadRecord
-//@ prop C13 C15:safety
+// (a full member of C15's check: the loop invariant that bounds the reassembled record by the record limit is the
+// allocation bound the property names - the buffer grows by writes, not by make)
+//@ prop C13 C15
 //@ allocbound rmMax(rm)
 //@ requires rm != nil && rm.fragmentBuf != nil && rm.MaxRecordSize <= 1073741824
 //@ modifies rpos, wlen, wdata, elems(byte), rm.lastFragment, rm.complete
